@@ -39,9 +39,17 @@ deriving DecidableEq, Repr, Inhabited
 def World.findClass (w : World) (n : Name) : Option ClassRec := w.classes.find? (fun c => c.pure.decl.name == n)
 def World.findInst (w : World) (n : Name) : Option InstRec := w.insts.find? (fun i => i.name == n)
 
-def World.roots (w : World) : Owner → List (Name × Ref)
+/-- the accessibles of an owner (`cls.accessibles` / `self.accessibles`) -/
+def World.accessiblesOf (w : World) : Owner → List (Name × Ref)
   | .cls n => match w.findClass n with | some c => c.accessibles | none => []
   | .inst n => match w.findInst n with | some i => i.accessibles | none => []
+
+/-- every object an owner holds directly: its accessibles, and for a class everything in its `__dict__` -/
+def World.roots (w : World) : Owner → List Ref
+  | .cls n => match w.findClass n with
+    | some c => c.accessibles.map (·.2) ++ c.accRef.map (·.2) ++ c.declDt.map (·.2)
+    | none => []
+  | .inst n => match w.findInst n with | some i => i.accessibles.map (·.2) | none => []
 
 /-- what can be seen of one accessible: its properties and its datatype (with members and enum) -/
 structure AccView where
@@ -57,7 +65,7 @@ def viewAt (h : Heap) (r : Ref) : Option AccView :=
 
 /-- the abstraction: what `for_export()` of all accessibles of an owner is computed from -/
 def describeH (w : World) (o : Owner) : List (Name × Option AccView) :=
-  (w.roots o).map (fun nr => (nr.1, viewAt w.heap nr.2))
+  (w.accessiblesOf o).map (fun nr => (nr.1, viewAt w.heap nr.2))
 
 /-- objects reachable from one accessible object -/
 def reachAcc (h : Heap) (r : Ref) : List Ref :=
@@ -65,7 +73,7 @@ def reachAcc (h : Heap) (r : Ref) : List Ref :=
     | some a => a.dtype.toList ++ a.ownDt.toList ++ a.mergedDt.toList
     | none => []
 
-def reach (w : World) (o : Owner) : List Ref := (w.roots o).flatMap (fun nr => reachAcc w.heap nr.2)
+def reach (w : World) (o : Owner) : List Ref := (w.roots o).flatMap (reachAcc w.heap)
 
 /-! ## class definition -/
 
@@ -107,9 +115,9 @@ def allocAcc (w : World) (self : Name) (selfDecl : List (Name × Ref)) (st : Hea
     (h2, st.2 ++ [(ke.1, r)])
   | _ => st
 
-def accessibleRef (w : World) (self : Name) (own : List (Name × Ref)) (ns : Name × SlotV) : Name × Ref :=
-  (ns.1, if ns.2.owner == self then (aget? own ns.1).getD 0
-         else ((w.findClass ns.2.owner).bind (fun cr => aget? cr.accRef ns.1)).getD 0)
+def accessibleRef (w : World) (self : Name) (own : List (Name × Ref)) (ns : Name × SlotV) : Option (Name × Ref) :=
+  (if ns.2.owner == self then aget? own ns.1
+   else (w.findClass ns.2.owner).bind (fun cr => aget? cr.accRef ns.1)).map (fun r => (ns.1, r))
 
 def dictAccs (own : List (Name × Ref)) (dict : List (Name × EntryV)) : List (Name × Ref) :=
   dict.filterMap (fun ke => match ke.2 with | .acc _ => (aget? own ke.1).map (fun r => (ke.1, r)) | _ => none)
@@ -117,12 +125,21 @@ def dictAccs (own : List (Name × Ref)) (dict : List (Name × EntryV)) : List (N
 def chainOf (w : World) (d : ClassDecl) : List ClassV :=
   d.mro.tail.filterMap (fun n => (w.findClass n).map (·.pure))
 
+def layoutDecl (w : World) (cv : ClassV) : Heap × List (Name × Ref) :=
+  cv.dict.foldl (allocDecl cv.decl.name) (w.heap, [])
+
+def layoutAcc (w : World) (cv : ClassV) (s1 : Heap × List (Name × Ref)) : Heap × List (Name × Ref) :=
+  cv.dict.foldl (allocAcc w cv.decl.name s1.2) (s1.1, [])
+
+def layoutAccessibles (w : World) (cv : ClassV) (own : List (Name × Ref)) : List (Name × Ref) :=
+  if cv.decl.isModule then cv.accessibles.filterMap (accessibleRef w cv.decl.name own) else dictAccs own cv.dict
+
+def layoutRec (w : World) (cv : ClassV) : ClassRec :=
+  ⟨cv, (layoutAcc w cv (layoutDecl w cv)).2, (layoutDecl w cv).2,
+   layoutAccessibles w cv (layoutAcc w cv (layoutDecl w cv)).2⟩
+
 def layout (w : World) (cv : ClassV) : World :=
-  let self := cv.decl.name
-  let s1 := cv.dict.foldl (allocDecl self) (w.heap, [])
-  let s2 := cv.dict.foldl (allocAcc w self s1.2) (s1.1, [])
-  let accs := if cv.decl.isModule then cv.accessibles.map (accessibleRef w self s2.2) else dictAccs s2.2 cv.dict
-  { w with heap := s2.1, classes := w.classes ++ [⟨cv, s2.2, s1.2, accs⟩] }
+  { w with heap := (layoutAcc w cv (layoutDecl w cv)).1, classes := w.classes ++ [layoutRec w cv] }
 
 def defineClass (T : Tables) (w : World) (d : ClassDecl) : World :=
   layout w (pureDefine T (chainOf w d) d)
@@ -172,7 +189,7 @@ def instantiate (T : Tables) (w : World) (name cls : Name) (cfg : List (Name × 
 /-! ## run-time mutation of one instance -/
 
 def setprop (T : Tables) (w : World) (inst par key : Name) (val : PVal) : World :=
-  match aget? (w.roots (.inst inst)) par with
+  match aget? (w.accessiblesOf (.inst inst)) par with
   | some r => match w.heap.accAt r with
     | some a =>
       if a.isCmd || T.isParamProp key then { w with heap := w.heap.set r (.acc { a with props := a.props.put key val }) }
@@ -188,7 +205,7 @@ def nextEnum (ms : List (String × Int)) : Int := ms.foldl (fun m kv => max m kv
 
 /-- `register_input` (mixins.py:36-49): the datatype object is **replaced** by a new enum -/
 def addEnum (w : World) (inst par member : Name) : World :=
-  match aget? (w.roots (.inst inst)) par with
+  match aget? (w.accessiblesOf (.inst inst)) par with
   | some r => match w.heap.accAt r with
     | some a => match a.dtype with
       | some rd => match w.heap.dtAt rd with
